@@ -161,6 +161,9 @@ def run_table(case):
             break
         s._expand(s.classdb.get_class(wp.label), wp.label, wp.strategies, wp.inferral)
         if db.has_specification() and n_ex < 3:
+            if n_ex == 0:
+                list(db.get_specification_rules())  # public route, first time (postcondition)
+                cx.count("c11.public_extractions")
             ex = ForestRuleExtractor(s.start_label, db, s.classdb, pack)
             ex.check()
             list(ex.rules(()))  # recomputes every rule: _find_rule postcondition
@@ -168,6 +171,10 @@ def run_table(case):
             needed = max(needed, len(ex.needed_rules))
     if not n_ex:
         return {"skip": "root never productive"}
+    # the public route, twice: rules inserted among already productive classes in between must
+    # be taken into account by the second extraction
+    list(db.get_specification_rules())
+    cx.count("c11.public_extractions")
     return {"nontrivial": needed >= 3, "fingerprint": fp(case)}
 
 
@@ -180,6 +187,16 @@ def run_words(case):
     if res.outcome != "spec":
         return {"skip": "no specification"}
     prof = searchlib.spec_profile(res.spec)
+    # keep exploring, then ask the same database again
+    s = res.searcher
+    for _ in range(intuniv.rng_for("c11w", case["id"]).randint(1, 12)):
+        try:
+            wp = next(s.classqueue)
+        except StopIteration:
+            break
+        s._expand(s.classdb.get_class(wp.label), wp.label, wp.strategies, wp.inferral)
+    list(s.ruledb.get_specification_rules())
+    cx.count("c11.public_extractions")
     return {"nontrivial": prof["rules"] >= 3, "fingerprint": fp(case)}
 
 
